@@ -603,6 +603,29 @@ def add_subclass(r, m, insts):
         insts[i] = new
 
 
+def group_scalar_wildcards(r, m, v):
+    """a single-valued wildcard field binds a run of unknown elements to ONE name-less AnyElement container
+    (ElementNode.bind_wild_var wraps the value bound first when the second one arrives): genmodels only puts one
+    named element there, give some of them siblings (seeded breakage C01-r4m2)"""
+    if isinstance(v, list):
+        for x in v:
+            group_scalar_wildcards(r, m, x)
+        return
+    if not isinstance(v, dict) or "fields" not in v:
+        return
+    c = G.find_class(m, v["__cls__"])
+    for f in G.all_fields(m, c):
+        x = v["fields"].get(f["name"])
+        if f["kind"] == "Wildcard" and not f.get("list") and not f.get("mixed") and isinstance(x, dict) and "__any__" in x:
+            if x["__any__"]["qname"] and r.random() < 0.4:
+                cons, cns = f.get("namespace", "##any"), G.class_namespace(m, c)
+                sibs = [G.gen_any(r, 0, cons, cns) for _ in range(r.choice([1, 1, 2]))]
+                v["fields"][f["name"]] = {"__any__": {"qname": None, "text": None, "tail": None, "attributes": {},
+                                                       "children": [x] + sibs}}
+        else:
+            group_scalar_wildcards(r, m, x)
+
+
 def pad_any_text(r, v):
     """generic elements without children keep their text as it is: give some of them surrounding white space
     (genmodels only writes trimmed texts there)"""
@@ -845,6 +868,7 @@ def run(ck: Check):
         add_recursion(r, m, insts)
         add_subclass(r, m, insts)
         for inst in insts:
+            group_scalar_wildcards(r, m, inst)
             pad_any_text(r, inst)
         cases = []
         for i in range(len(insts)):
